@@ -104,6 +104,10 @@ def _optimize_operator_call_attr(  # pylint: disable=too-many-return-statements
         if fn.attr == "contains":
             arg1, arg2 = node.args
             assert len(node.args) == 2
+            # `b in a` evaluates `b` before `a`, the reverse of `contains(a, b)`, so the
+            # rewrite is only safe when evaluating the operands has no side effects.
+            if not all(isinstance(arg, (ast.Constant, ast.Name)) for arg in node.args):
+                return node
             return ast.Compare(arg2, [ast.In()], [arg1])
 
         if fn.attr == "delitem":
